@@ -25,7 +25,8 @@ LINE_TYPE_W = [('float', 8), ('int', 2), ('bool', 3), ('str', 2), ('enum', 1)]
 
 FLOATS = [0.0, 1.0, 2.5, 10.25, 1500.0, 0.005, 1.005, 2.675, -3.5, 99999.99, 0.125, 1500.01, 7.0]
 INTS = [0, 1, 2, 3, 5, 10, -1, 1500]
-STRS = ['abc', 'John Q', 'x', '', 'a=b; c', 'Zoe~', '(paren', 'back\\slash', '1040', 'Where St #12', '#4B', 'x ;y', '; z']
+STRS = ['abc', 'John Q', 'x', '', 'a=b; c', 'Zoe~', '(paren', 'back\\slash', '1040', 'Where St #12', '#4B', 'x ;y', '; z',
+        'line one\nline two', 'a\n\nb after an empty line']
 REGEX_OK = ['ab1', 'cc9', 'ba0']
 SSNS = [('123-45-6789', '123456789'), ('987654321', '987654321'), ('000-00-0001', '000000001')]
 TRUE_TXT = ['yes', 'y', 'true', '1', 'on', 'Yes', 'TRUE']
@@ -68,6 +69,8 @@ def render_value(rng, ispec):
         return rng.pick(TRUE_TXT if v else FALSE_TXT), ['b', v]
     if t == 'str':
         v = rng.pick(STRS)
+        if '\n' in v:
+            return v, ['s', v]
         return rng.pick([v, f' {v}', f'{v}  ']), ['s', v]
     if t == 'enum' or t == 'enum_empty':
         members = ENUMS[ispec['enum']]
@@ -492,7 +495,7 @@ def gen_case(seed, force_faults=None, clean=None, defaults=False):
     else:
         p_present = r_s.pick([1.0, 1.0, 0.8, 0.5, 0.0])
     names = sorted(persona)
-    infile = [n for n in names if persona[n]['invalid'] or persona[n].get('stray') or r_s.chance(p_present)]
+    infile = [n for n in names if persona[n]['invalid'] or persona[n].get('stray') or '\n' in persona[n]['text'] or r_s.chance(p_present)]
     if 'missing' in faults:
         prompt = r_s.chance(0.3)
     else:
@@ -584,7 +587,7 @@ def file_text(case_or_items, layout=None, names=None):
         items = [(n, case['persona'][n]['text']) for n in names]
         layout = case.get('layout') if layout is None else layout
         if case.get('defaults'):
-            head = ['[DEFAULT]'] + [f"{k} = {d['text']}" for k, d in sorted(case['defaults'].items())] + ['']
+            head = ['[DEFAULT]'] + [f"{k} = " + d['text'].replace('\n', '\n    ') for k, d in sorted(case['defaults'].items())] + ['']
     else:
         items = list(case_or_items)
     sections = {}
@@ -597,7 +600,7 @@ def file_text(case_or_items, layout=None, names=None):
         for sec in secnames:
             out.append(f'[{sec}]')
             for k, t in sections[sec]:
-                out.append(f'{k} = {t}')
+                out.append(f'{k} = ' + t.replace('\n', '\n    '))
             out.append('')
         return '\n'.join(head + out)
     rng = core.Rng(core.h64('layout', layout))
@@ -617,7 +620,7 @@ def file_text(case_or_items, layout=None, names=None):
                 out.append(rng.pick(['; note', '# c', '']))
             key = k.upper() if rng.chance(0.15) else k
             delim = rng.pick([' = ', '=', ': ', ' : ', ' =  ', '\t=\t'])
-            t2 = t.strip()
+            t2 = t.strip().replace('\n', nl + '\t')
             if t2 == '':
                 out.append(f'{key}{delim.rstrip() or "="}')
             else:
